@@ -195,6 +195,17 @@ class SubEquality(sansldap.FilterEquality):
     filter_id: int = dataclasses.field(init=False, repr=False, default=1025)
 
 
+@dataclasses.dataclass(frozen=True)
+class SubSimple(sansldap.SimpleCredential):
+    """An application credential that derives from the built-in simple credential (same pack/unpack, written in terms of
+    `auth_id`) and only claims another choice id - the way AD's sicily binds are usually added."""
+
+    auth_id: int = dataclasses.field(init=False, repr=False, default=10)
+
+
+BY_NAME["SubSimple"] = SubSimple
+REGISTER_METHOD["SubSimple"] = "register_auth_credential"
+SLOT["SubSimple"] = "auth10"
 BY_NAME["SubEquality"] = SubEquality
 REGISTER_METHOD["SubEquality"] = "register_filter"
 SLOT["SubEquality"] = "filter1025"
